@@ -14,6 +14,7 @@ mod w_c12;
 mod w_c18;
 mod w_c19;
 mod w_c20;
+mod w_c20x;
 mod vecprog;
 mod w_vec;
 mod w_c16;
@@ -125,6 +126,10 @@ fn main() {
         }
         "c20" => {
             w_c20::run(&args, &mut rep);
+            true
+        }
+        "c20cross" => {
+            w_c20x::run(&args, &mut rep);
             true
         }
         "c20race" => {
